@@ -238,7 +238,7 @@ func Run(opts Options, body func()) *Result {
 	go func() { s.live.Wait(); close(waitDone) }()
 	select {
 	case <-waitDone:
-	case <-time.After(5 * time.Second):
+	case <-time.After(3 * time.Minute): // real time; generous, because on a heavily loaded machine goroutines take seconds to get a turn
 		n := 0
 		for _, g := range s.gs {
 			if !g.done {
